@@ -7,7 +7,7 @@ from lib.coqterm import cbytes, cbool, copt, clist, cpair, hx, unhx
 
 ID = "C32"
 QUICK_N = 3000
-THOROUGH_N = 45000
+THOROUGH_N = 24000
 SHARD = 420
 COQ_PRELUDE = "From MV Require Import Model.MsgText.\n"
 RULE = ("50% set_text/get_text on a real Response: content type = base type (html/xml/css/json/javascript/plain/"
